@@ -181,6 +181,11 @@ pub fn run_child() -> i32 {
     for k in names {
         std::env::remove_var(k);
     }
+    // the simulated machine's disk: temp and home live inside the scratch dir
+    // unless the plan says otherwise
+    let _ = std::fs::create_dir_all(format!("{scratch}/tmp"));
+    std::env::set_var("TMPDIR", format!("{scratch}/tmp"));
+    std::env::set_var("HOME", format!("{scratch}/home"));
     for (k, val) in &epoch.env {
         std::env::set_var(k, val);
     }
